@@ -313,6 +313,40 @@ func checkArithFacts(c ArithCase) (*Violation, arithFacts) {
 			return violf("%s returned a non-finite number", at), f
 		}
 	}
+	// an integer result is that integer, not a double that happens to print alike: one more exact
+	// step from it stays exact (a double at the int64 limits or beyond 2^53 would absorb the 1)
+	if x.isInt && y.isInt && c.Op != "/" && !mustErr {
+		exact := new(big.Rat)
+		switch c.Op {
+		case "+":
+			exact.Add(x.rat(), y.rat())
+		case "-":
+			exact.Sub(x.rat(), y.rat())
+		case "*":
+			exact.Mul(x.rat(), y.rat())
+		default:
+			exact.SetInt(new(big.Int).Rem(x.rat().Num(), y.rat().Num()))
+		}
+		if r, ok := valueOf(got); ok && fitsInt64(exact) && r.Cmp(exact) == 0 {
+			for _, step := range []struct {
+				op string
+				d  int64
+			}{{"+", 1}, {"-", 1}} {
+				want := new(big.Rat).Add(r, big.NewRat(step.d, 1))
+				if step.op == "-" {
+					want = new(big.Rat).Sub(r, big.NewRat(step.d, 1))
+				}
+				if !fitsInt64(want) {
+					continue
+				}
+				t2 := fmt.Sprintf("%s(%s %s %s) %s 1", mode, c.X.pathText("a"), c.Op, c.Y.pathText("b"), step.op)
+				g2 := run(t2)
+				if r2, ok2 := valueOf(g2); !ok2 || r2.Cmp(want) != 0 {
+					return violf("%s = %s exactly, an integer; but %s returned %s, want %s", at, r.RatString(), t2, g2, want.RatString()), f
+				}
+			}
+		}
+	}
 	// commutativity of + and * (value and error class)
 	if c.Op == "+" || c.Op == "*" {
 		swapped := fmt.Sprintf("%s%s %s %s", mode, c.Y.pathText("b"), c.Op, c.X.pathText("a"))
